@@ -21,6 +21,32 @@ replace = {
     os.path.join(REPO, "zzverif", "shimos", "hooked.go"): shim_src,
     os.path.join(REPO, "zzverif", "shimos", "passthrough.go"): gen,
 }
+# package sync: rewritten in every non-test source file of the repository that imports it
+sync_src = os.path.join(ROOT, "harness", "shimsync", "hooked.go")
+sync_gen = os.path.join(work, "sync_passthrough.go")
+p = subprocess.run(["go", "run", "./shimgen", sync_src, sync_gen, "sync", "shimsync"], cwd=os.path.join(ROOT, "harness"), stdout=subprocess.PIPE, stderr=subprocess.STDOUT, text=True)
+if p.returncode != 0:
+    sys.stdout.write(p.stdout)
+    sys.exit(1)
+replace[os.path.join(REPO, "zzverif", "shimsync", "hooked.go")] = sync_src
+replace[os.path.join(REPO, "zzverif", "shimsync", "passthrough.go")] = sync_gen
+simp = re.compile(r'^(\s*)(?:sync\s+)?"sync"\s*$', re.M)
+nsync = 0
+for dirpath, dirnames, filenames in os.walk(REPO):
+    dirnames[:] = [d for d in dirnames if d not in (".git", "zzverif", "_examples", "docs", "scripts")]
+    for name in sorted(filenames):
+        if not name.endswith(".go") or name.endswith("_test.go"):
+            continue
+        full = os.path.join(dirpath, name)
+        if os.path.dirname(full) == os.path.join(REPO, "store", "fscache"):
+            continue  # handled below together with the os rewrite
+        src = open(full).read()
+        new, k = simp.subn(r'\1sync "github.com/bartventer/httpcache/zzverif/shimsync"', src)
+        if k:
+            out = os.path.join(work, "sync_" + os.path.relpath(full, REPO).replace(os.sep, "_"))
+            open(out, "w").write(new)
+            replace[full] = out
+            nsync += k
 fsdir = os.path.join(REPO, "store", "fscache")
 imp = re.compile(r'^(\s*)(?:os\s+)?"os"\s*$', re.M)
 n = 0
@@ -29,10 +55,13 @@ for name in sorted(os.listdir(fsdir)):
         continue
     src = open(os.path.join(fsdir, name)).read()
     new, k = imp.subn(r'\1os "github.com/bartventer/httpcache/zzverif/shimos"', src)
+    new, k2 = simp.subn(r'\1sync "github.com/bartventer/httpcache/zzverif/shimsync"', new)
+    nsync += k2
+    k += k2
     if k:
         out = os.path.join(work, "fscache_" + name)
         open(out, "w").write(new)
         replace[os.path.join(fsdir, name)] = out
         n += k
 json.dump({"Replace": replace}, open(os.path.join(work, "overlay.json"), "w"), indent=1)
-print("overlay: %d import(s) of os rewritten in store/fscache" % n)
+print("overlay: %d import(s) of os/sync rewritten in store/fscache, %d import(s) of sync elsewhere" % (n, nsync))
